@@ -6,6 +6,32 @@ ALL = ['C%02d' % i for i in range(1, 21)]
 
 # id -> (technique, level text, level note, design ref)
 CLAIMED = {
+ 'C01': ('coverage-guided fuzzing (libFuzzer + ASan/UBSan/LSan) with in-target oracles: exception audit, outcome audit, bounded work, bounded memory',
+         'Five libFuzzer targets (document+external subset+external entity+schema under API x scanner x validation x feature bits decoded from the '
+         'input; loadGrammar DTD/XSD; RegularExpression; XSValue/datatype validators) run from structure-aware seeds with dictionaries; every crash, '
+         'sanitizer report, foreign exception or work/memory bound excess is a replayable artefact. Exploration: memory safety and termination are '
+         'sampled, not proved.',
+         'Trusts the sanitizers and the target code (harness/fz_*.cpp); time-boxed campaigns are only approximately reproducible from VERIF_SEED, the saved '
+         'artefact is the reproducible unit; continue-after-fatal-error (documented undetermined) is not generated.',
+         '3 C01'),
+ 'C02': ('model-based PBT (Hypothesis): well-formed-by-construction documents + 75 single-constraint mutation operators, pyexpat as second witness',
+         'Each generated document must parse without fatal error under a drawn API x scanner x namespace cell, and each single-constraint mutant '
+         '(well-formedness, namespace or encoding violation at a drawn site) must raise >=1 fatal error or documented exception. Verdict-only oracle; '
+         'both the generator and pyexpat must agree on the expected verdict.',
+         'Trusts pyexpat as XML 1.0 witness; the XML 1.1 lane has the generator only and is limited to clear-cut operators.',
+         '3 C02'),
+ 'C04': ('differential / metamorphic PBT: read-plan partitions vs one-shot parse, exhaustive alignment sweep around the 16K-char and 48K-byte refill points, source-type differential',
+         'The full canonical event dump (incl. error codes and positions) of a parse through a stream that splits the bytes by a drawn read plan, or '
+         'from a file / file: URL / stdin / custom InputSource, must equal the in-memory one-shot parse; every construct kind is slid across every offset '
+         'around each buffer boundary and must give the same events as with a short filler. No XML model involved.',
+         'Reference is the same build; two known findings are excluded by construction (short first read, transcoding-error position).',
+         '3 C04'),
+ 'C06': ('model-based PBT (Hypothesis): namespace-first tree generator, DOM L3 Appendix B reference model, pyexpat namespace-mode witness',
+         'Trees are generated from expanded names and declarations are invented; SAX2/SAX1/DOM/DOMLS x 4 scanners must report the model (uri, local, '
+         'qname), balanced prefix mappings and DOM namespace fields, and lookupNamespaceURI/lookupPrefix/isDefaultNamespace on every element must equal '
+         'the Appendix B model; namespace-constraint violations must be reported.',
+         'Trusts the Appendix B model in pbt/props/C06.py and pyexpat (XML 1.0); lookupPrefix checked with a validity predicate.',
+         '3 C06'),
  'C03': ('model-based PBT (Hypothesis): constructive infoset->text renderer, expected event list from the model, pyexpat second witness',
          'Generated-input search: random infosets rendered with random lexical forms, each parsed through one of 7 API variants x scanner x '
          'namespace/entity configuration; the canonical event dump must equal the list derived from the model (and pyexpat must agree with the '
@@ -26,7 +52,7 @@ def main():
             'thorough_cmd': './vcheck %s --tier thorough' % pid,
             'evidence_file': '/verif/evidence/%s.json' % pid,
             'replay_cmd_template': './vcheck %s --replay {path}' % pid,
-            'engine': 'E-HYP',
+            'engine': 'E-FUZZ' if pid == 'C01' else 'E-HYP',
             'level_claimed': {'category': 'exploration', 'text': text, 'design_ref': 'DESIGN.md section ' + ref},
             'level_note': note,
             'technique': tech,
@@ -44,7 +70,7 @@ def main():
         },
         'engines': [
             {'name': 'E-HYP', 'path': 'pbt/', 'serves_properties': [c for c in CLAIMED], 'kind_free_text': 'Hypothesis strategies + Python reference models driving C++ executors (harness/xv*.cpp, ASan+UBSan) over pipes'},
-            {'name': 'E-FUZZ', 'path': 'harness/fz_*.cpp', 'serves_properties': [], 'kind_free_text': 'libFuzzer targets with in-target semantic oracles'},
+            {'name': 'E-FUZZ', 'path': 'harness/fz_*.cpp', 'serves_properties': ['C01'], 'kind_free_text': 'libFuzzer targets with in-target semantic oracles'},
             {'name': 'E-ENUM', 'path': 'harness/xvtc*.cpp', 'serves_properties': [], 'kind_free_text': 'exhaustive C++ enumeration + rapidcheck'},
         ],
         'checks': checks,
